@@ -408,6 +408,9 @@ def judge_run(case, res, name, cls, n_in, ref, bound):
                 out.append(C.V("output-missing", f"{name}: output file {e} was not created"))
             continue
         except fmt.FormatError as e:
+            if "sequence and quality lengths differ" in str(e) and C._optval(case["opts"], "--action") == "mask":
+                # the per-read defect of DESIGN section 11 (--action=mask with indexed anchored adapters), not this property
+                raise engine.Discard("mask-writes-record-with-unequal-lengths")
             out.append(C.V("incomplete-output", f"{name}: {d['paths']}: {e}"))
             continue
         if r2 is not None and len(r1) != len(r2):
